@@ -16,6 +16,7 @@ Partial aspects
 * "promptly", "at the configured interval", "after the configured back-off" are not wall-clock statements here:
   ticks and timer expiries are environment events; the harness observes the real periods with tolerance.
 -/
+import KafkaVerif.Model.GroupDeadlines
 import KafkaVerif.Lemmas.GroupInv
 import KafkaVerif.Lemmas.GroupHb
 import KafkaVerif.Lemmas.GroupHbAlive
@@ -392,6 +393,78 @@ theorem coordinator_address_plain (host : String) (port : Int) (h : host.contain
 of the statements -/
 theorem defaults_match_documentation :
     documentedGroupDefaults.all (fun kv => KV.Gen.Group.validateDefaults.lookup kv.1 == some kv.2) = true := by decide
+
+/-! ### the member id the coordinator assigned is kept until it is left -/
+
+/-- After a successful JoinGroup (`jm` = the member id of the answer) every failure before the generation exists — the
+leader's metadata read (`partsRes`), SyncGroup, OffsetFetch — makes `nextGeneration` return THAT member id with the error:
+`run` then rejoins with it (rebalance) or sends LeaveGroup for it (any other error) — it is never forgotten while the
+coordinator still holds it. -/
+theorem failure_after_join_keeps_member (c : Cfg) (s s1 s2 : St) (ev : Ev) (m : String) (e : Option Err)
+    (hev : (∃ er, er ≠ Err.unknownTopic ∧ ev = .partsRes (some er)) ∨ (∃ mi gi er, ev = .syncRes mi gi (some er)) ∨
+           (∃ er, ev = .fetchRes (some er)))
+    (h1 : step c s ev = some s1) (h2 : step c s1 (.nextGenRet m e) = some s2) :
+    m = s.jm ∧ s2.member = s.jm := by
+  have hpc : ∃ er, s1.pc = .retp s.jm (some er) := by
+    rcases hev with ⟨er, hne, rfl⟩ | ⟨mi, gi, er, rfl⟩ | ⟨er, rfl⟩
+    · simp only [step] at h1
+      split at h1
+      · cases er <;> first | (exact absurd rfl hne) | (cases h1; exact ⟨_, rfl⟩)
+      · cases h1
+    · simp only [step] at h1
+      split at h1
+      · cases h1; exact ⟨_, rfl⟩
+      · cases h1
+    · simp only [step] at h1
+      split at h1
+      · cases h1; exact ⟨_, rfl⟩
+      · cases h1
+  obtain ⟨er, hpc⟩ := hpc
+  simp only [step] at h2
+  split at h2
+  · rename_i hr
+    have hm : m = s.jm := by
+      unfold returnsNow at hr
+      rw [hpc] at hr
+      simp at hr
+      exact hr.1.symm
+    refine ⟨hm, ?_⟩
+    subst hm
+    cases e with
+    | none => cases h2; rfl
+    | some x => cases x <;> cases h2 <;> rfl
+  · cases h2
+
+/-! ### how long an answer is waited for (timeoutCoordinator) -/
+
+/-- every coordinator call has a deadline of at least `Timeout`; only JoinGroup (+ RebalanceTimeout) and SyncGroup
+(+ SessionTimeout) wait longer — in particular a heartbeat that gets no answer fails after exactly `Timeout`, which ends
+the generation (`ctx_cancelled_on_heartbeat_error`) -/
+theorem deadline_bounds (t : Timeouts) (c : CoordCall) :
+    t.timeout ≤ callDeadline t c ∧ callDeadline t .heartbeat = t.timeout ∧
+    (c ≠ .joinGroup → c ≠ .syncGroup → callDeadline t c = t.timeout) := by
+  refine ⟨?_, rfl, ?_⟩
+  · cases c <;> simp [callDeadline]
+  · intro h1 h2; cases c <;> simp_all [callDeadline]
+
+/-- an answer the coordinator may legitimately take its time for is not given up early: JoinGroup held for less than the
+rebalance time-out, SyncGroup held for less than the session time-out are accepted whatever `Timeout` is -/
+theorem slow_join_and_sync_are_waited_for (t : Timeouts) (held : Nat) :
+    (held ≤ t.rebalance → 0 < t.timeout → answered t .joinGroup held = true) ∧
+    (held ≤ t.session → 0 < t.timeout → answered t .syncGroup held = true) := by
+  constructor
+  · intro h h0
+    show decide (held < t.timeout + t.rebalance) = true
+    exact decide_eq_true (by omega)
+  · intro h h0
+    show decide (held < t.timeout + t.session) = true
+    exact decide_eq_true (by omega)
+
+/-- regenerated: the deadline every `timeoutCoordinator` method sets (`time.Now().Add(…)`, terms by field name) is the
+model's, and `makeConnect` feeds Timeout / RebalanceTimeout / SessionTimeout into the fields of the same name -/
+theorem deadlines_match_source :
+    CoordCall.all.all (fun c => KV.Gen.Group.coordinatorDeadlines.lookup c.name == some (deadlineTerms c)) = true ∧
+    KV.Gen.Group.connectTimeouts = connectFields := by decide
 
 /-! ### a generation only after a successful OffsetFetch (hypothesis of C03 `start_at_committed`) -/
 
